@@ -161,7 +161,31 @@ def direct_typecheck(ctx):
                 ctx.outcome(("tc-direct", kind, accepted))
 
 
+def named_param_layer(ctx):
+    """built-ins called with NAMED parameters in every order (the Django backend binds them by name): the inferred type must
+    not depend on the order in which the arguments are written"""
+    from itertools import permutations
+    s_, u_, n_ = typed.F("s"), typed.F("u"), typed.F("n")
+    specs = [("substring", [("fullstr", s_), ("index", T.Int(1))], S), ("substring", [("fullstr", s_), ("index", T.Int(1)), ("nchars", T.Int(2))], S),
+             ("substring", [("fullstr", T.path("a", "b")), ("index", n_)], S), ("contains", [("field", s_), ("substr", T.Str("a"))], B),
+             ("startswith", [("field", s_), ("substr", u_)], B), ("indexof", [("first", s_), ("second", T.Str("a"))], I),
+             ("concat", [("a", s_), ("b", T.Str("x"))], S), ("length", [("arg", s_)], I), ("round", [("field", typed.F("x"))], R),
+             ("matchesPattern", [("field", s_), ("pattern", T.Str("^a"))], B)]
+    n = 0
+    for fname, params, ty in specs:
+        for perm in permutations(params):
+            call = T.call(fname, *[T.named(k, v) for k, v in perm])
+            for wrapped, wty in ((call, ty), (T.call("concat", call, T.Str("z")) if ty == S else None, S), (T.call("length", call) if ty == S else None, I)):
+                if wrapped is None:
+                    continue
+                check_term(ctx, wrapped, wty)
+                n += 1
+    return n
+
+
 def typecheck_layer(ctx):
+    nn = named_param_layer(ctx)
+    ctx.extra["named_parameter_calls"] = nn
     direct_typecheck(ctx)
     bks = backends()
     en = enum()
